@@ -81,6 +81,10 @@ func (j *jsonPathProcessor) process(dec *jx.Decoder, aheads []pathAhead) error {
 		if err != nil {
 			return err
 		}
+		if val == "" {
+			// an empty value writes no label, as on the ClickHouse path (where '' also stands for a missing path)
+			return nil
+		}
 		for _, a := range aheads {
 			if len(a.path) == 0 {
 				(*j.labels)[a.label] = val
